@@ -1,12 +1,18 @@
-(* C14 - Delimited (appendable) types evolve without breaking containers or the wire. Statements only. *)
+(* C14 - Delimited (appendable) types evolve without breaking containers or the wire. Statements only.
+
+   [evolves t t'] (Serdes/Evolve.v, decidable): t' is t with nested delimited structures replaced by revisions of the same
+   extent whose field list is a prefix or an extension (the hole at any position: field, array element, union variant,
+   inside another delimited type; nested holes allowed).
+   [conv t t' v] (Serdes/Evolve.v): v with, at every hole, the common leading fields kept, the fields unknown to the
+   writer set to the zero value [default_value], the fields unknown to the reader dropped; identical elsewhere.
+   [framed t hdr]: the byte string is the representation of t itself (sealed type without header flag, delimited type with). *)
 From Coq Require Import ZArith List Bool.
-From PV Require Import BLS.Model Layout.Types Serdes.Model Serdes.Evolve Serdes.ProofsLayout.
+From PV Require Import BLS.Model Layout.Types Serdes.Model Serdes.Bits Serdes.Spec Serdes.Evolve Serdes.ProofsLayout
+  Serdes.Roundtrip Serdes.ZeroDecode Serdes.EvolveProofs Serdes.EvolveTop Serdes.DeserProofs Serdes.ConvProofs.
 Import ListNotations.
 Open Scope Z_scope.
 
-(* [evolves t t'] (Serdes/Evolve.v): t' is t with nested delimited structures replaced by revisions of the same extent
-   whose field list is a prefix / an extension (hole at any position: field, array element, union variant, inside
-   another delimited type).  The operator tree of the bit length set, the alignment and the extent are EQUAL. *)
+(* the operator tree of the bit length set, the alignment and the extent of a container are EQUAL for both revisions *)
 Theorem C14_layout : forall t t', evolves t t' = true -> bls t = bls t' /\ align t = align t' /\ extent t = extent t'.
 Proof. intros t t' H. destruct (evolves_lay_eq t t' H). auto using evolves_extent. Qed.
 Print Assumptions C14_layout.
@@ -23,10 +29,81 @@ Theorem C14_layout_union_fields : forall nm nm' fs gs, evolves (TUnion nm fs) (T
 Proof. exact evolves_union_fields. Qed.
 Print Assumptions C14_layout_union_fields.
 
-(* non-vacuity: a container with the hole in an array, something after it, and a revision that appends two fields *)
+(* old -> new and new -> old in one statement ([evolves] is symmetric in what it allows): data written with t is read
+   with t' as conv t t' (canon t v); bytes after the representation are ignored *)
+Theorem C14_cross_version : forall t t' v hdr bytes extra,
+  wft t = true -> is_composite t = true -> framed t hdr = true -> validb t v = true ->
+  wft t' = true -> serializable t' = true -> evolves t t' = true ->
+  bytes_ok extra -> serialize t v hdr = Ok bytes ->
+  deserialize t' (bytes ++ extra) hdr = Ok (conv t t' (canon t v)).
+Proof. exact cross_version. Qed.
+Print Assumptions C14_cross_version.
+
+(* the same at any position inside any reader state: the reader of t' consumes exactly the representation written with t
+   - every field after the nested object, including further array elements, is therefore read from the right offset *)
+Theorem C14_cross_version_nested : forall t, wft t = true -> forall t', evolves t t' = true ->
+  wft t' = true -> serializable t' = true ->
+  forall v r rest, validb t v = true -> rok r -> roff r mod align t = 0 ->
+  sees r (enc t v (roff r) ++ rest) -> roff r + zlen (enc t v (roff r)) <= rend r ->
+  deser t' r = Ok (conv t t' (canon t v), r_adv r (zlen (enc t v (roff r)))).
+Proof. intros t Hw t' He Hw' Hs'. exact (proj1 (evolve_deser t) Hw t' He (conj Hw' (or_introl Hs'))). Qed.
+Print Assumptions C14_cross_version_nested.
+
+(* the relation covers exactly the situation of the property: D' = D ++ appended fields (either direction), same extent;
+   and every type evolves into itself (so the containers around the hole are unconstrained) *)
+Theorem C14_hole_evolves : forall nm nm' fs gs x,
+  evolves (TDelim (TStruct nm fs) x) (TDelim (TStruct nm' (fs ++ gs)) x) = true /\
+  evolves (TDelim (TStruct nm (fs ++ gs)) x) (TDelim (TStruct nm' fs) x) = true.
+Proof. exact hole_evolves. Qed.
+Print Assumptions C14_hole_evolves.
+
+Theorem C14_evolves_refl : forall t, evolves t t = true.
+Proof. exact evolves_refl. Qed.
+Print Assumptions C14_evolves_refl.
+
+(* what [conv] yields: nothing changes between equal types ... *)
+Theorem C14_conv_same : forall t v, validb t v = true -> conv t t (canon t v) = canon t v.
+Proof. exact conv_refl. Qed.
+Print Assumptions C14_conv_same.
+
+(* ... old -> new: common leading fields keep their values, the fields unknown to the writer read as the zero value ... *)
+Theorem C14_old_to_new : forall nm nm' fs gs x vs, valid_fields validb fs vs = true ->
+  conv (TDelim (TStruct nm fs) x) (TDelim (TStruct nm' (fs ++ gs)) x) (canon (TDelim (TStruct nm fs) x) (VStruct vs)) =
+  VStruct (canon_fields canon fs vs ++ default_fields default_value gs).
+Proof. exact conv_old_to_new. Qed.
+Print Assumptions C14_old_to_new.
+
+(* ... new -> old: the fields unknown to the reader are skipped *)
+Theorem C14_new_to_old : forall nm nm' fs gs x vs, valid_fields validb (fs ++ gs) vs = true ->
+  conv (TDelim (TStruct nm (fs ++ gs)) x) (TDelim (TStruct nm' fs) x) (canon (TDelim (TStruct nm (fs ++ gs)) x) (VStruct vs)) =
+  VStruct (canon_fields canon fs vs).
+Proof. exact conv_new_to_old. Qed.
+Print Assumptions C14_new_to_old.
+
+(* what "read as zero / empty / first variant" means: zero bits decode to default_value, for every type, at every offset *)
+Theorem C14_zero_decode : forall t, wft t = true -> serializable t = true ->
+  forall r, ZR r -> exists r', deser t r = Ok (default_value t, r') /\ ZR r'.
+Proof. intros t Hw Hs. exact (zero_decode t Hw (or_introl Hs)). Qed.
+Print Assumptions C14_zero_decode.
+
+Theorem C14_zero_bytes : forall t n hdr, wft t = true -> serializable t = true -> is_composite t = true -> hdr_ok t hdr = true ->
+  deserialize t (zeros n) hdr = Ok (default_value t).
+Proof. exact zero_bytes_decode. Qed.
+Print Assumptions C14_zero_bytes.
+
+(* non-vacuity: the hole as element of a variable-length array with a field after it; the new revision appends a signed
+   integer and a string.  Old data read by the new reader and new data read by the old reader. *)
 Definition ex_old : ty := TDelim (TStruct [] [(Some [100], TPrim (PUInt 8 Sat))]) 64.
 Definition ex_new : ty := TDelim (TStruct [] [(Some [100], TPrim (PUInt 8 Sat)); (Some [101], TPrim (PSInt 16)); (Some [102], TVar (TPrim PUtf8) 3)]) 64.
 Definition ex_cont (d : ty) : ty := TStruct [] [(Some [1], TPrim (PUInt 3 Trunc)); (Some [2], TVar d 2); (Some [3], TPrim PBool)].
-Example C14_nonvacuous : evolves (ex_cont ex_old) (ex_cont ex_new) = true /\ evolves (ex_cont ex_new) (ex_cont ex_old) = true
-  /\ wft (ex_cont ex_new) = true.
-Proof. vm_compute. auto. Qed.
+Definition ex_vo : val := VStruct [VInt 5; VList [VStruct [VInt 7]; VStruct [VInt 9]]; VBool true].
+Definition ex_vn : val := VStruct [VInt 5; VList [VStruct [VInt 7; VInt (-2); VList [VInt 97]]; VStruct [VInt 9; VInt 300; VList []]]; VBool true].
+Example C14_nonvacuous :
+  evolves (ex_cont ex_old) (ex_cont ex_new) = true /\ evolves (ex_cont ex_new) (ex_cont ex_old) = true /\
+  wft (ex_cont ex_new) = true /\ serializable (ex_cont ex_new) = true /\ wft (ex_cont ex_old) = true /\ serializable (ex_cont ex_old) = true /\
+  validb (ex_cont ex_old) ex_vo = true /\ validb (ex_cont ex_new) ex_vn = true /\
+  conv (ex_cont ex_old) (ex_cont ex_new) (canon (ex_cont ex_old) ex_vo) =
+    VStruct [VInt 5; VList [VStruct [VInt 7; VInt 0; VList []]; VStruct [VInt 9; VInt 0; VList []]]; VBool true] /\
+  conv (ex_cont ex_new) (ex_cont ex_old) (canon (ex_cont ex_new) ex_vn) = ex_vo /\
+  (match serialize (ex_cont ex_new) ex_vn false with Ok bs => deserialize (ex_cont ex_old) bs false | Err e => Err e end) = Ok ex_vo.
+Proof. vm_compute. repeat split; reflexivity. Qed.
